@@ -53,6 +53,7 @@ var rkNames = map[RK]string{ROffer1: "OFFER(s1)", ROffer2: "OFFER(s2)", ROfferNo
 	RRelay: "RELAY-REPL", RAdvNoCID: "ADV(nocid)", RAdvNoSID: "ADV(nosid)", RAdvNoIANA: "ADV(noiana)", RWrongXid6: "wrongxid", RGarbage6: "garbage", ROther6: "RECONFIGURE"}
 
 var srvIP = map[int]net.IP{1: net.IPv4(10, 0, 0, 1).To4(), 2: net.IPv4(10, 0, 0, 2).To4()}
+var leasedIP = net.IPv4(10, 1, 0, 77).To4()
 var offIP = map[int]net.IP{0: net.IPv4(10, 7, 0, 9).To4(), 1: net.IPv4(10, 1, 0, 11).To4(), 2: net.IPv4(10, 2, 0, 22).To4()}
 
 type ExScenario struct {
@@ -303,6 +304,8 @@ func (s *ExScenario) body(out **exRun) func() {
 				reqp, _ := dhcpv4.NewRequestFromOffer(off)
 				ab, _ := build4(reqp, RAck1, 201, 2)
 				ack, _ := dhcpv4.FromBytes(ab)
+				// the server acknowledged another address than it offered: the lease is the ACK's
+				ack.YourIPAddr = leasedIP
 				return &nclient4.Lease{Offer: off, ACK: ack}
 			}
 			switch s.Op {
@@ -492,7 +495,7 @@ func (s *ExScenario) check(run *exRun, ex *vs.Exec) (string, string) {
 			return fail("X5-renew", fmt.Sprintf("Renew transmitted %d datagrams", len(run.txs)))
 		}
 		rq := run.txs[0].v4
-		if rq.MessageType() != dhcpv4.MessageTypeRequest || !rq.ClientIPAddr.Equal(offIP[1]) || rq.IsBroadcast() ||
+		if rq.MessageType() != dhcpv4.MessageTypeRequest || !rq.ClientIPAddr.Equal(leasedIP) || rq.IsBroadcast() ||
 			rq.Options.Has(dhcpv4.OptionRequestedIPAddress) || rq.Options.Has(dhcpv4.OptionServerIdentifier) || !bytes.Equal(rq.ClientHWAddr, clientMAC) {
 			return fail("X5-renew-fields", fmt.Sprintf("RENEW request: type %v ciaddr %v broadcast %v opt50 %v opt54 %v", rq.MessageType(), rq.ClientIPAddr, rq.IsBroadcast(),
 				rq.Options.Has(dhcpv4.OptionRequestedIPAddress), rq.Options.Has(dhcpv4.OptionServerIdentifier)))
@@ -519,7 +522,7 @@ func (s *ExScenario) check(run *exRun, ex *vs.Exec) (string, string) {
 		}
 		rq := run.txs[0].v4
 		wantDest := (&net.UDPAddr{IP: srvIP[1], Port: 67}).String()
-		if rq.MessageType() != dhcpv4.MessageTypeRelease || !rq.ClientIPAddr.Equal(offIP[1]) || !bytes.Equal(rq.ClientHWAddr, clientMAC) ||
+		if rq.MessageType() != dhcpv4.MessageTypeRelease || !rq.ClientIPAddr.Equal(leasedIP) || !bytes.Equal(rq.ClientHWAddr, clientMAC) ||
 			!rq.ServerIdentifier().Equal(srvIP[1]) || run.txs[0].dest != wantDest {
 			return fail("X6-release-fields", fmt.Sprintf("RELEASE: type %v ciaddr %v chaddr %v sid %v dest %s (want %s)", rq.MessageType(), rq.ClientIPAddr, rq.ClientHWAddr, rq.ServerIdentifier(), run.txs[0].dest, wantDest))
 		}
